@@ -137,6 +137,37 @@ def gen_relate(tier, rng):
             for doc in docs:
                 for strict in (True, False):
                     yield send_case(client_cfg(strict=strict), batch(reqs), [text_reply(doc)], tag='relate')
+            # one batch object used twice: some calls, sent; more calls added to the same batch, sent again
+            if ncalls >= 2 and not layout:
+                for first_n in range(1, ncalls):
+                    for doc in [list(p) for p in perms[:6]] + [list(reversed(base))]:
+                        yield send_case(client_cfg(), batch(reqs), [text_reply(doc)], tag='relate', regrow={'first_n': first_n})
+
+
+def gen_relate_random(tier, rng):
+    """seeded random response documents: a random sub-multiset of the expected responses, mutated ids, extras, shuffled"""
+    for _ in range(6000 if tier == 'thorough' else 500):
+        ncalls = rng.randrange(1, 5)
+        pool = [1, 'x', 3, 0, '', -7, '3', 2 ** 40]
+        ids = rng.sample(pool, ncalls)
+        reqs = [_req_spec(f'm{i}', [i], id) for i, id in enumerate(ids)]
+        for k in range(rng.choice([0, 0, 1, 2])):
+            reqs.insert(rng.randrange(len(reqs) + 1), _req_spec(f'n{k}', None, None))
+        doc = []
+        for i, id in enumerate(ids):
+            r = rng.random()
+            if r < 0.08:
+                continue                                             # omitted
+            rid = id
+            if r < 0.16:
+                rid = rng.choice([None, str(id) if isinstance(id, int) else 5, 99, rng.choice(ids)])
+            doc.append(ok(rid, f'res{i}') if rng.random() < 0.75 else err(rid, rng.choice([2001, -32601, 5, 0])))
+            if rng.random() < 0.05:
+                doc.append(doc[-1])
+        if rng.random() < 0.1:
+            doc.append(ok(rng.choice([99, None, 'zz']), 'extra'))
+        rng.shuffle(doc)
+        yield send_case(client_cfg(strict=rng.random() < 0.7), batch(reqs), [text_reply(doc)], tag='relate')
 
 
 OUTCOMES = {
@@ -221,6 +252,28 @@ def gen_retry(tier, rng):
                         yield send_case(client_cfg(), single(), atts, call=True, tag='retry', req_retry=st)
 
 
+def gen_sessions(tier, rng):
+    """several requests through ONE client object with a client-wide strategy: every request has the full retry budget
+    and the backoff starts over (the model knows no state between requests)"""
+    j0 = [F(0.0)] * 8
+    sid = 0
+    for n in (1, 2, 3):
+        for bo in ({'k': 'periodic', 'attempts': str(n), 'interval': F(1.5), 'jitter': j0},
+                   {'k': 'exponential', 'attempts': str(n), 'base': F(1.0), 'factor': F(2.0), 'max': None, 'jitter': j0},
+                   {'k': 'fibonacci', 'attempts': str(n), 'multiplier': F(0.5), 'max': None, 'jitter': j0}):
+            st = strategy(bo, 'one', 'one')
+            for _ in range(6 if tier == 'thorough' else 2):
+                sid += 1
+                for step in range(3):
+                    k = rng.randrange(0, n + 1)
+                    seq = [rng.choice(['listed-code', 'listed-exc']) for _ in range(k)] + [rng.choice(['ok', 'listed-code', 'unlisted-code', 'listed-exc'])]
+                    if rng.random() < 0.3:
+                        yield send_case(client_cfg(retry=st), batch([_req_spec('a', None, 1), _req_spec('b', None, 2)]),
+                                        [BATCH_OUTCOMES[x]() for x in seq], tag='retry', session=f's{sid}')
+                    else:
+                        yield send_case(client_cfg(retry=st), single(), [OUTCOMES[x]() for x in seq], call=True, tag='retry', session=f's{sid}')
+
+
 TRACE_OUTCOMES = {
     'ok': lambda: text_reply(ok(1)),
     'error-response': lambda: text_reply(err(1, 2001)),
@@ -262,7 +315,9 @@ def gen_trace(tier, rng):
 
 def generate(tier, rng):
     yield from gen_relate(tier, rng)
+    yield from gen_relate_random(tier, rng)
     yield from gen_retry(tier, rng)
+    yield from gen_sessions(tier, rng)
     yield from gen_trace(tier, rng)
 
 
@@ -298,7 +353,8 @@ def _kind(final):
 
 def _proj_one(prop, c, o):
     if prop == 'C08':
-        return {'final': _kind(o['final']), 'value': o['value'], 'related': o['related']}
+        # `value_call`: the same exchange through call() / batch.call() (the model has one notion of the value)
+        return {'final': _kind(o['final']), 'value': o['value'], 'related': o['related'], 'value_call': o.get('value_call', o['value'])}
     if prop == 'C09':
         return {'sends': o['sends'], 'sleeps': o['sleeps'], 'final': _kind(o['final']), 'value': o['value']}
     if prop == 'C19':
@@ -452,6 +508,9 @@ def _oracle_half(prop, c, o, half):
                 rel = o['related']
                 if rel is not None and [r for r in rel if r is not None] != want_ids:
                     fail('not-related', 'accepted responses are not linked to the requests with the same id')
+    if prop == 'C08' and c.get('tag') == 'relate' and 'value_call' in o and o['value_call'] != o['value']:
+        fail('call-notation-value', 'call() / batch.call() (on a batch object possibly grown between two sends) does not hand the caller what '
+                                    'send() + reading the results by position gives', o['value'])
     if prop == 'C09' and c.get('tag') == 'retry':
         st = _effective_strategy(c)
         sends = int(o['sends'])
